@@ -1,5 +1,7 @@
 //! Family binary: security upgrades and identities (C16–C21).
+mod c16;
 mod c17;
+mod c18;
 mod c19;
 mod c20;
 mod c21;
@@ -8,5 +10,5 @@ mod keys;
 mod noise_kit;
 
 fn main() {
-    mc::main_dispatch(&[("C17", c17::run, c17::META), ("C19", c19::run, c19::META), ("C20", c20::run, c20::META), ("C21", c21::run, c21::META)]);
+    mc::main_dispatch(&[("C18", c18::run, c18::META), ("C16", c16::run, c16::META), ("C17", c17::run, c17::META), ("C19", c19::run, c19::META), ("C20", c20::run, c20::META), ("C21", c21::run, c21::META)]);
 }
